@@ -96,6 +96,25 @@ pub fn run(s: &mut Session, ctx: &Ctx) {
             s.check(back.to_rgba() == base.to_rgba() && back.to_hsla().h == base.to_hsla().h, "complement-self-inverse", "Color::complementary", || format!("{}.complementary().complementary()", show_color(&base)), || format!("{:?} vs {:?}", back.to_hsla(), base.to_hsla()));
         }
     }
+    // lightening across the cut of the sRGB linearisation: colours one of whose float channels
+    // sits just below the threshold used by `luminance`, lightened by tiny amounts
+    let n_seam = if ctx.thorough { 40_000 } else { 2_000 };
+    for i in 0..n_seam {
+        let cut = *rng.pick(&[0.03928, 0.04045]);
+        let below = cut - rng.unit() * rng.unit() * 2e-5;
+        let (h, sat) = if i % 3 == 0 { (0.0, 0.0) } else { (rng.range(0.0, 360.0), rng.unit() * 0.6) };
+        // a lightness whose largest channel is `below`: l + chroma/2 = below with chroma = 2 l s (l < 1/2)
+        let l = below / (1.0 + sat);
+        let c = Color::from_hsl(h, sat, l);
+        let x = rng.unit() * rng.unit() * 4e-5;
+        let lit = c.lighten(x);
+        let (lum0, lum1) = (c.luminance(), lit.luminance());
+        s.count_case("", true);
+        s.check(lum1 >= lum0 - NOISE, "lighten-luminance-monotone", "Color::lighten", || format!("{}.lighten({:?})", show_color(&c), x), || format!("luminance {:?} -> {:?}", lum0, lum1));
+        let dk = lit.darken(x * rng.unit());
+        let lum2 = dk.luminance();
+        s.check(lum2 <= lum1 + NOISE, "darken-luminance-monotone", "Color::darken", || format!("{}.darken(..)", show_color(&lit)), || format!("luminance {:?} -> {:?}", lum1, lum2));
+    }
     // luminance along l-lines of a lattice (thorough: finer)
     let steps = if ctx.thorough { 400 } else { 60 };
     for hi in 0..36 {
